@@ -29,7 +29,7 @@ CHECKS = {
     "C05": ("exploration", "runtime monitoring: real pool under ASan+UBSan+LSan and TSan, offline exactly-once/FIFO/affinity checker over a client-boundary event log, injected queue write/read faults, seeded schedule perturbation",
             "Held on the executions explored: hundreds of seeded scenarios (pool sizes 1-16, external/pool/self senders, all 8 flag combinations, never-started and STARTING destinations, shared virtual thread, pipe-full EAGAIN, injected EAGAIN/EPIPE/EBADF at the first 64 queue writes and sampled later ones, EINTR/EAGAIN on queue reads, shutdown with accepted messages still queued: behind the stop message, in a later read batch, in a full queue, in the virtual thread's queue, or written by a sender racing tp_shutdown) with every message carrying a unique id and every history checked offline; exploration because schedules are sampled, not enumerated.",
             TP_NOTE, "DESIGN.md 4 C05"),
-    "C07": ("exploration", "runtime monitoring: HMAC entry points (streaming, one-shot, digest, hex) in the C04 build variants under ASan+UBSan/MSan; hmac.new / RFC 2104 over the Python Streebog decide; key block freed after init (use-after-free monitor), context non-interference monitor for pad wiping, and a private-stack residue scan for K' xor ipad/opad after each entry point returns (non-sanitizer builds)",
+    "C07": ("exploration", "runtime monitoring: HMAC entry points (streaming, one-shot, digest, hex) in the C04 build variants under ASan+UBSan/MSan; hmac.new / RFC 2104 over the Python Streebog decide; key block freed after init (use-after-free monitor), context non-interference monitor for pad wiping, and a private-stack residue scan for K' xor ipad/opad after each hmac entry point and after the RADIUS Message-Authenticator calculation (every packet code, error returns included) returns (non-sanitizer builds)",
             "Held on the cases explored: all eight hash variants, key lengths 0..3 blocks (every length in thorough; every boundary and every 5th otherwise in quick), messages/chunkings from the C04 generator, context reuse with a second key; MAC, sizes and entry-point agreement checked against the reference; after final the HMAC context (incl. k_opad) must be identical for twin keys/messages.",
             "trusted: Python hashlib/hmac and oracles/streebog.py (RFC 7836 HMAC vectors in setup)", "DESIGN.md 4 C07"),
     "C08": ("exploration", "runtime monitoring: ChaCha/HChaCha/XChaCha and GOST 28147-89 executed in gcc/clang x -O0..-O3 x {default, -fno-strict-aliasing} x {expanded, small tables} builds plus ASan+UBSan and MSan, exact-size buffers with alignment sweeps; from-scratch Python references decide every output and the counter",
